@@ -4,7 +4,7 @@ import numpy as np
 from absn import *
 import common as C
 from c15_objs import *
-from c15_oracle import expect, call, CLEAN
+from c15_oracle import expect, call, CLEAN, conversion_problem
 
 PROP = 'C15'
 LEAN_MODULES = ['PMV.Props.C15', 'PMV.Lemmas.C15Calls', 'PMV.Lemmas.Ravel', 'PMV.Lemmas.AxisPerm', 'PMV.Lemmas.AxisOps']
@@ -131,6 +131,15 @@ def oracle(case):
         if prob:
             return (signature(case) + ':stale-cache', '%s %s: a cached accessor of the result is stale: %s'
                     % (case['op'], case['args'], prob))
+    if case['op'] == 'as_class':
+        if raw is None:
+            return None            # a conversion that refuses the operand is not a relabeling question
+        prob = conversion_problem(case, raw)
+        if prob:
+            return ('as_%s:%s:%s' % (case['args']['target'].lower(), case['obj']['cls'], prob[0]),
+                    'as_%s(%s numer %s denom %s, recursive=%s): %s' % (case['args']['target'].lower(), case['obj']['cls'],
+                     case['obj']['numer'], case['obj']['denom'], case['args']['rec'], prob[1]))
+        return None
     if exp is None:
         return None
     if exp == 'reject':
@@ -396,6 +405,8 @@ def item_cases(rng, shape, full):
                 o = fl()
                 for k in range(0, len(o['numer']) + len(o['denom']) + 2):
                     out.append(mk('split_items', dict(o), {'nrank': k, 'classes': cl()}))
+                for target in ('Scalar', 'Vector', 'Vector3', 'Pair', 'Matrix'):
+                    out.append(mk('as_class', ob(), {'target': target, 'rec': rec()}, 'as_class:' + target))
                 if cls in ('Vector', 'Vector3', 'Pair', 'Quaternion'):
                     L = numer[0]
                     for ix in rng.sample([-L - 1, -L, -1, 0, L - 1, L], 3):
